@@ -135,6 +135,61 @@ def steps_expr(case_shape, sc, steps, exact, tol=1e-9, scale=4):
     return f"(let sc := {sc} in " + "".join(binds) + "(" + " && ".join(parts) + ")%bool)"
 
 
+def pml_terms(out) -> str:
+    """Coq list of CPML layer records from the driver's description (boxes and 1-D coefficient profiles)."""
+    items = []
+    for p in out["pmls"]:
+        (x0, x1), (y0, y1), (z0, z1) = p["box"]
+        prof = " ".join(f"(of1 (X:=Qc) 0%Qc {lst(p[k], qlit)})" for k in ("aE", "bE", "ikE", "aH", "bH", "ikH"))
+        items.append(f"(mkPml K {p['axis']} {'true' if p['dir'] == '-' else 'false'} {x0} {x1} {y0} {y1} {z0} {z1} {prof} {'true' if p['kappa1'] else 'false'})")
+    return lst(items)
+
+
+def embed(shape, box, arr):
+    """box-shaped nested list -> full-size nested list (zeros outside)"""
+    nx, ny, nz = shape
+    (x0, x1), (y0, y1), (z0, z1) = box
+    z = float(0).hex()
+    return [[[arr[i - x0][j - y0][k - z0] if (x0 <= i < x1 and y0 <= j < y1 and z0 <= k < z1) else z for k in range(nz)] for j in range(ny)] for i in range(nx)]
+
+
+def psi_lit(shape, out, psis) -> str:
+    """list over layers of [psi1; psi2] as full-size L3 Cq literals"""
+    return lst([lst([l3(embed(shape, p["box"], a), lambda v: cq(v)) for a in pair]) for p, pair in zip(out["pmls"], psis)])
+
+
+def pml_steps_expr(shape, sc, out, n_fwd, backs, tol=1e-9, scale=4):
+    """forward steps with psi + recorded-interface backward steps (reset) against the implementation."""
+    nx, ny, nz = shape
+    cmp_ = f"fields_close {qlit(tol)} {qlit(scale)}"
+    st = out["states"]
+    binds = []
+    for n, s_ in enumerate(st):
+        binds.append(f"let fe{n} := {fields_lit(s_['E'])} in let fh{n} := {fields_lit(s_['H'])} in "
+                     f"let pe{n} := {psi_lit(shape, out, s_['psiE'])} in let ph{n} := {psi_lit(shape, out, s_['psiH'])} in ")
+    for n, s_ in enumerate(backs):
+        binds.append(f"let be{n} := {fields_lit(s_['E'])} in let bh{n} := {fields_lit(s_['H'])} in ")
+    def v3(name):
+        return f"(V3_of K {nx} {ny} {nz} (nth 0 {name} []) (nth 1 {name} []) (nth 2 {name} []))"
+    def psis(name):
+        return f"(map (fun pr => (of3 (c0 (K:=K)) {nx} {ny} {nz} (nth 0 pr []), of3 (c0 (K:=K)) {nx} {ny} {nz} (nth 1 pr []))) {name})"
+    def ptab(e):
+        return f"(map (fun pr => [tab3 {nx} {ny} {nz} (fst pr); tab3 {nx} {ny} {nz} (snd pr)]) {e})"
+    parts = []
+    for n in range(n_fwd):
+        parts.append(f"(let s := forwardX K sc (mkSt (K:=K) {st[n]['t']} {v3(f'fe{n}')} {v3(f'fh{n}')} {psis(f'pe{n}')} {psis(f'ph{n}')}) in "
+                     f"({cmp_} (V3_tab K {nx} {ny} {nz} (fE s)) fe{n + 1}) && ({cmp_} (V3_tab K {nx} {ny} {nz} (fH s)) fh{n + 1}) && "
+                     f"(list_eqb ({cmp_}) {ptab('(psiE s)')} pe{n + 1}) && (list_eqb ({cmp_}) {ptab('(psiH s)')} ph{n + 1}))")
+    if backs:
+        N = len(st) - 1
+        rec = "(fun t => " + "".join(f"if Nat.eqb t {t} then ({v3(f'fe{t + 1}')}, {v3(f'fh{t + 1}')}) else " for t in range(N)) + "(vzero K, vzero K))"
+        chain = [(f"fe{N}", f"fh{N}", st[N]["t"])] + [(f"be{n}", f"bh{n}", b["t"]) for n, b in enumerate(backs)]
+        for (ea, ha, ta), (eb, hb, tb) in zip(chain, chain[1:]):
+            parts.append(f"(let s := backward_recX K sc {rec} (mkSt (K:=K) {ta} {v3(ea)} {v3(ha)} {psis(f'pe{N}')} {psis(f'ph{N}')}) in "
+                         f"(Nat.eqb (tstep s) {tb}) && ({cmp_} (V3_tab K {nx} {ny} {nz} (fE s)) {eb}) && ({cmp_} (V3_tab K {nx} {ny} {nz} (fH s)) {hb}))")
+    return f"(let sc := {sc} in " + "".join(binds) + "(" + " && ".join(parts) + ")%bool)"
+
+
 def np_fields(x):
     """hex nested lists (or {re,im}) -> numpy complex array"""
     import numpy as np
